@@ -433,8 +433,13 @@ pub fn recover_replay(a: &Args) -> Report {
       if prop == "C17" && ib.iter().any(|e| absent[e[0].as_u64().unwrap() as usize - 1]) {
         continue;
       }
-      let want_ok = line["ok"].as_u64().unwrap() == 1;
-      let grp = line["grp"].as_u64().unwrap() as usize;
+      // `ok`/`grp`: the outcome of the code-shaped reference model; `canok`/`mustok`/`first`: the
+      // contract the properties impose on ANY recover (Adss.tla: CanRecover / MustRecover) — the
+      // implementation is judged against the contract, agreement with the reference is counted
+      let ref_ok = line["ok"].as_u64().unwrap() == 1;
+      let can_ok = line["canok"].as_u64().unwrap() == 1;
+      let want_ok = line["mustok"].as_u64().unwrap() == 1;
+      let grp = line["first"].as_u64().unwrap() as usize;
       let faulty = ib.iter().any(|e| e[1].as_str().unwrap() != "none");
       let thr_fault_only = ib.iter().all(|e| {
         let f = e[1].as_str().unwrap();
@@ -442,7 +447,7 @@ pub fn recover_replay(a: &Args) -> Report {
       });
       // which behaviours belong to which property
       let relevant = match prop.as_str() {
-        "C01" => !faulty && want_ok,
+        "C01" => !faulty && (want_ok || ref_ok),
         "C02" => thr_fault_only,
         "C05" => true,
         "C16" => true,
@@ -478,9 +483,10 @@ pub fn recover_replay(a: &Args) -> Report {
         continue;
       }
       rep.evaluations += 1;
-      let replay = json!({"valuation": val.name, "inbox": ib, "expected_ok": want_ok, "expected_group": grp});
+      let replay = json!({"valuation": val.name, "inbox": ib, "must_recover": want_ok, "may_recover": can_ok,
+        "reference_model_recovers": ref_ok, "first_share_group": grp});
       if prop == "C17" {
-        wasm_line(&cfg, &clients, ib, &shares, want_ok, grp, &replay, &mut rep);
+        wasm_line(&cfg, &clients, ib, &shares, want_ok, can_ok, ref_ok, grp, &replay, &mut rep);
         continue;
       }
       // decode (an undecodable altered share counts as rejected)
@@ -511,19 +517,20 @@ pub fn recover_replay(a: &Args) -> Report {
       if faulty || !want_ok {
         rep.nontrivial(format!("{}:{}", vi, line["ib"]));
       }
-      match (&got, want_ok) {
-        (None, true) => {
-          // success is demanded only by C01 / C16 (honest collections)
-          if (prop == "C01" || prop == "C16") && !faulty {
+      rep.count(if got.is_some() == ref_ok { "outcomes_equal_to_reference_model" } else { "outcomes_differing_from_reference_model_within_contract" }, 1);
+      match (&got, can_ok) {
+        (None, _) if want_ok => {
+          // success is demanded only of honest collections of one sharing (C01 / C16)
+          if prop == "C01" || prop == "C16" {
             rep.violation(&prop, "share_recover", "recovery-failed",
-              format!("specification predicts recovery of client {grp}'s sharing, implementation returned {}",
+              format!("t distinct honest shares of client {grp}'s sharing must recover, implementation returned {}",
                 if r.is_panic() { "a panic" } else { "an error" }), replay.clone());
           }
         }
         (Some(_), false) => {
           let cls = if faulty { "accepted-altered-collection" } else { "recovered-below-threshold" };
           rep.violation(&prop, "share_recover", cls,
-            "specification predicts an error, implementation returned a message".into(), replay.clone());
+            "the collection must be refused (first share altered / foreign transcript / threshold 0, or its sharing is below threshold), implementation returned a message".into(), replay.clone());
         }
         (Some(msg), true) => {
           // identity of the recovered message: it must open the reports of the predicted group
@@ -572,7 +579,7 @@ pub fn recover_replay(a: &Args) -> Report {
             }
           }
         }
-        (None, false) => {}
+        (None, _) => {}
       }
       if rep.samples.len() < 4 && (li % 97 == 3) {
         rep.sample(json!({"valuation": val.name, "inbox": ib, "predicted_ok": want_ok, "observed_ok": got.is_some()}));
@@ -691,6 +698,8 @@ fn wasm_line(
   ib: &[Value],
   shares: &[Vec<u8>],
   want_ok: bool,
+  can_ok: bool,
+  ref_ok: bool,
   grp: usize,
   replay: &Value,
   rep: &mut Report,
@@ -710,8 +719,9 @@ fn wasm_line(
     _ => None,
   };
   let client_key = clients[gi - 1].key.map(|k| BASE64_STANDARD.encode(k));
-  match (got.clone(), want_ok) {
-    (None, true) => rep.violation("C17", "star_wasm::group_shares", "nothing-returned",
+  rep.count(if got.is_some() == ref_ok { "outcomes_equal_to_reference_model" } else { "outcomes_differing_from_reference_model_within_contract" }, 1);
+  match (got.clone(), can_ok) {
+    (None, _) if want_ok => rep.violation("C17", "star_wasm::group_shares", "nothing-returned",
       format!("threshold reached but the grouping call returned nothing{}", if r.is_panic() { " (panic)" } else { "" }),
       replay.clone()),
     (Some(_), false) => rep.violation("C17", "star_wasm::group_shares", "key-below-threshold",
@@ -733,7 +743,7 @@ fn wasm_line(
         }
       }
     }
-    (None, false) => {
+    (None, _) => {
       rep.nontrivial(format!("wasm-none:{}", Value::Array(ib.to_vec())));
     }
   }
